@@ -3,6 +3,8 @@ package io
 import (
 	"bytes"
 	"io"
+
+	zerr "github.com/DemoHn/Zn/pkg/error"
 )
 
 // ByteStream - import a string as code source
@@ -22,15 +24,19 @@ func NewByteStream(b []byte) *ByteStream {
 }
 
 func (b *ByteStream) ReadAll() ([]rune, error) {
-	data, _, err := readRune(b.reader, b.encBuffer, b.length)
+	data, remains, _, err := readRune(b.reader, b.encBuffer, b.length)
 	if err != nil {
 		return []rune{}, err
+	}
+	// all bytes have been read: an incomplete char at the end could not be completed
+	if len(remains) > 0 {
+		return []rune{}, zerr.ReadFileError(errInvalidUTF8, " <buffer> ")
 	}
 	return data, nil
 }
 
 func (b *ByteStream) Read(n int) ([]rune, error) {
-	data, remains, err := readRune(b.reader, b.encBuffer, n)
+	data, remains, _, err := readRune(b.reader, b.encBuffer, n)
 	if err != nil {
 		return []rune{}, err
 	}
